@@ -79,4 +79,35 @@ def QTrue : ∀ n : ℕ, Matrix (Fin n) (Fin n) 𝕜 → Prop := fun _ _ => True
 /-- every level matrix weakly diagonally dominant -/
 def QWeakDD : ∀ n : ℕ, Matrix (Fin n) (Fin n) 𝕜 → Prop := fun _ A => WeakDD A
 
+/-! ### the smoothers whose smoothing inequality is proved (used by `C02b.amg_spd_contracting_partial`) -/
+
+/-- the smoothers for which the smoothing inequality is proved here -/
+inductive ProvedSmoother (𝕜 : Type u)
+  | gaussSeidel
+  | dampedJacobi (ω : 𝕜)
+  | spai0
+
+/-- pre-sweep matrix family -/
+noncomputable def ProvedSmoother.pre : ProvedSmoother 𝕜 → SmootherFamily 𝕜
+  | .gaussSeidel => gsFam
+  | .dampedJacobi ω => jacobiFam ω
+  | .spai0 => spai0Fam
+
+/-- post-sweep matrix family -/
+noncomputable def ProvedSmoother.post : ProvedSmoother 𝕜 → SmootherFamily 𝕜
+  | .gaussSeidel => gsBackFam
+  | .dampedJacobi ω => jacobiFam ω
+  | .spai0 => spai0Fam
+
+/-- what the smoother needs of every level matrix, beyond SPD -/
+def ProvedSmoother.Q : ProvedSmoother 𝕜 → ∀ n : ℕ, Matrix (Fin n) (Fin n) 𝕜 → Prop
+  | .gaussSeidel => QTrue
+  | .dampedJacobi _ => QWeakDD
+  | .spai0 => QWeakDD
+
+/-- admissible parameters: `0 < ω < 1` for damped Jacobi -/
+def ProvedSmoother.ParamOK : ProvedSmoother 𝕜 → Prop
+  | .dampedJacobi ω => 0 < ω ∧ ω < 1
+  | _ => True
+
 end Amgcl.Energy
